@@ -7,14 +7,14 @@ Require Import QzParser.ParserModel QzParser.Props.C07.
 Open Scope Z_scope.
 
 Theorem C02_nft_least_parsed : forall (s : bytes) f off prev ns,
-  parse_trigger s = Ok f -> -93600 <= off <= 93600 -> 0 <= prev <= max_nanos ->
+  parse_trigger s = Ok f -> -93600 <= off <= 93600 -> min_nanos <= prev <= max_nanos ->
   next_fire_time f off prev = Fire ns ->
   forall t', prev < t' < ns -> t' mod nanos = 0 -> ~ matches_at f (fixed_zone off) t'.
 Proof. intros s f off prev ns Hp. exact (C02_nft_least f off prev ns (parse_trigger_ok_wf s f Hp)). Qed.
 Print Assumptions C02_nft_least_parsed.
 
 Theorem C02_nft_expired_iff_parsed : forall (s : bytes) f off prev,
-  parse_trigger s = Ok f -> -93600 <= off <= 93600 -> 0 <= prev <= max_nanos ->
+  parse_trigger s = Ok f -> -93600 <= off <= 93600 -> min_nanos <= prev <= max_nanos ->
   (next_fire_time f off prev = Expired <->
    forall t', prev < t' <= max_nanos -> t' mod nanos = 0 -> ~ matches_at f (fixed_zone off) t').
 Proof. intros s f off prev Hp. exact (C02_nft_expired_iff f off prev (parse_trigger_ok_wf s f Hp)). Qed.
